@@ -159,6 +159,8 @@ class World {
   std::multiset<Pending> queue;
   uint64_t seq = 0;
   bool activity = false;
+  // called after the contexts were serviced for one delivered item (the application's own work between I/O steps)
+  std::function<void()> idle_hook;
 };
 
 extern World *W;  // the world the interposers talk to (one at a time)
